@@ -1,7 +1,7 @@
 (* Correspondence runner for the "manifest" stream: a case is a manifest
    document (field-wise), the bundle root, what OpenDir made of it (the public
    accessors, sorted), and a list of lookups with their observed results. *)
-From Slug Require Import Base.Str Base.PathAlg Addr.Resolve Addr.Url Addr.Parse Bundle.Lookup.
+From Slug Require Import Base.Str Base.PathAlg Addr.Resolve Addr.Url Addr.Parse Bundle.Lookup Bundle.ManifestRT.
 Export Str Url Parse Lookup.
 
 Inductive query :=
@@ -15,7 +15,13 @@ Record opened := mkOpened {
   o_pkgs : list (str * str * str * str);
   o_reg : list (str * str * str * str) }.
 
-Inductive case := Case (root : str) (m : manifest) (in_dom : bool) (o : option opened) (qs : list query).
+(* [written]: the document is one the real Close wrote (reopen stream): then the model of writeManifest,
+   applied to the tables the model's OpenDir makes of it, must reproduce its package section, order included *)
+Inductive case := Case (root : str) (m : manifest) (in_dom : bool) (written : bool) (o : option opened) (qs : list query).
+
+Definition mpackage_eqb (a b : mpackage) : bool :=
+  str_eqb (mp_source a) (mp_source b) &&& str_eqb (mp_local a) (mp_local b) &&&
+  str_eqb (mp_commit a) (mp_commit b) &&& str_eqb (mp_message a) (mp_message b).
 
 (* ---------- canonical listings of the model's bundle ---------- *)
 Definition tup4_ltb (a b : str * str * str * str) : bool :=
@@ -87,10 +93,11 @@ Definition check_query (b : bundle) (q : query) : option bool :=
 
 Definition check (c : case) : bool :=
   match c with
-  | Case root m in_dom o qs =>
+  | Case root m in_dom written o qs =>
       match open_dir root m, o with
       | Ok b, Some x =>
           list_eqb tup4_eqb (listing_pkgs b) (o_pkgs x) &&& list_eqb tup4_eqb (listing_reg b) (o_reg x)
+          &&& (negb written ||| list_eqb mpackage_eqb (write_packages (b_dirs b) (b_meta b)) (m_packages m))
           &&& forallb (fun q => match check_query b q with Some r => r | None => negb in_dom end) qs
       | Rej, None => true
       | Out, _ => negb in_dom
